@@ -650,7 +650,10 @@ pub async fn start_replication_thread(
                         strategy: _,
                     } => {
                         let db_id = get_db_id(name, &dbs);
-                        let key_id = 1;
+                        // Key ids of data keys count up from 0: the two pseudo keys sit at the other
+                        // end so a data key of the same database can never take their place in the
+                        // (db, key) index the resynchronisation builds from the log
+                        let key_id = u64::MAX;
                         log::debug!("Will write CreateDb");
                         Oplog::try_write_op_log(
                             &mut op_log_stream,
@@ -669,7 +672,7 @@ pub async fn start_replication_thread(
                             .map(|db| {
                                 log::debug!("Will write ReplicateSnapshot db {}", db);
                                 let db_id = get_db_id(db.to_string(), &dbs);
-                                let key_id = 2; //has to be different
+                                let key_id = u64::MAX - 1; //has to be different
                                 log::debug!("Will write ReplicateSnapshot");
                                 Oplog::try_write_op_log(
                                     &mut op_log_stream,
